@@ -44,6 +44,8 @@ def _argstr(a):
         return 'sym[%d]' % a[2]
     if a[0] == 'int':
         return str(a[1])
+    if a[0] == 'bytescap':
+        return 'sym[%d|cap+%d]' % (a[2], a[3])
     if a[0] == 'tmpl':
         return 'tmpl[' + _tmpl_str(a[2]) + ']'
     if a[0] == 'cbytes':
@@ -109,6 +111,11 @@ def _make_args(job, cellsout):
                     for i, m in enumerate(a[3]):
                         v = ex.store.var_of(cells[i])
                         st.pc = ex.mdd.and_byte(st.pc, v.order, m)
+            elif a[0] == 'bytescap':
+                # n symbolic bytes followed by `extra` stale symbolic bytes between len and cap
+                s, cells = ex.new_bytes(st, a[1], a[2] + a[3])
+                cellsout.append((a[1], cells))
+                out.append(('S', s[1], (), 0, a[2], a[2] + a[3]))
             elif a[0] == 'tmpl':
                 # template: concrete skeleton bytes with runs of symbolic bytes
                 cells = []
@@ -151,6 +158,8 @@ def go_call(job, inputs):
     for a in job.args:
         if a[0] == 'bytes' or a[0] == 'tmpl':
             parts.append(go_bytes(inputs[a[1]]))
+        elif a[0] == 'bytescap':
+            parts.append('%s[:%d]' % (go_bytes(inputs[a[1]]), a[2]))
         elif a[0] == 'int':
             parts.append(str(a[1]))
         elif a[0] == 'bool':
